@@ -8,6 +8,7 @@ use std::collections::HashMap;
 use std::io::{BufRead, Read, Seek, SeekFrom, Write};
 use std::panic::{catch_unwind, AssertUnwindSafe};
 
+mod binfmt;
 mod kernels;
 
 thread_local! {
@@ -300,6 +301,15 @@ fn step(st: &mut St, t: &[&str]) -> Option<String> {
             Ok(_) => ok,
             Err(e) => Some(format!("err:{:?}", e.kind())),
         },
+        ["H", "updmmrp", r, threads, path] => {
+            // update_mmap_rayon inside a pool of the given size (the pool size is part of C08's quantifier)
+            let pool = rayon_core::ThreadPoolBuilder::new().num_threads(threads.parse().ok()?).build().ok()?;
+            let h = st.hs.get_mut(*r)?;
+            match pool.install(|| h.update_mmap_rayon(path).map(|_| ())) {
+                Ok(_) => ok,
+                Err(e) => Some(format!("err:{:?}", e.kind())),
+            }
+        }
         ["H", "updfile", r, path] => match std::fs::File::open(path) {
             Ok(f) => match st.hs.get_mut(*r)?.update_reader(f) {
                 Ok(_) => ok,
@@ -317,6 +327,12 @@ fn step(st: &mut St, t: &[&str]) -> Option<String> {
         ["H", "clone", r, r2] => {
             let h = st.hs.get(*r)?.clone();
             st.hs.insert(r2.to_string(), h);
+            ok
+        }
+        ["H", "clonefrom", src, dst] => {
+            // Clone::clone_from into an existing hasher (whatever history it has)
+            let s = st.hs.get(*src)?.clone();
+            st.hs.get_mut(*dst)?.clone_from(&s);
             ok
         }
         ["H", "reset", r] => {
@@ -673,6 +689,19 @@ fn conv_step(t: &[&str]) -> Option<String> {
             let hash: blake3::Hash = b.into();
             let back: [u8; 32] = hash.into();
             Some(format!("{} {}", hex(&back), hex(hash.as_bytes())))
+        }
+        ["bin", h] => {
+            // compact binary format: wire bytes, the value read back, and the number of bytes left over
+            let b: [u8; 32] = unhex(h)?.try_into().ok()?;
+            let hash = blake3::Hash::from_bytes(b);
+            let wire = binfmt::to_bytes(&hash);
+            // a record (hash, marker byte): a wire form of the wrong width shifts the marker
+            let rec = binfmt::to_bytes(&(hash, 0xA5u8));
+            let back = match binfmt::from_bytes::<blake3::Hash>(&wire) { Ok((v, rest)) => format!("{} {}", hex(v.as_bytes()), rest), Err(_) => "err".into() };
+            let back2 = match binfmt::from_bytes::<(blake3::Hash, u8)>(&rec) { Ok(((v, m), rest)) => format!("{} {} {}", hex(v.as_bytes()), m, rest), Err(_) => "err".into() };
+            // interchangeable with a plain [u8; 32]
+            let arr = match binfmt::from_bytes::<[u8; 32]>(&wire) { Ok((v, rest)) => format!("{} {}", hex(&v), rest), Err(_) => "err".into() };
+            Some(format!("{} {} {} {}", hex(&wire), back, back2, arr).replace(' ', "_"))
         }
         ["json", h] => {
             let b: [u8; 32] = unhex(h)?.try_into().ok()?;
